@@ -21,6 +21,7 @@ type replayFile struct {
 		W    int    `json:"w"`
 	} `json:"inputs"`
 	Choices []int64 `json:"choices"`
+	Assert  string  `json:"assert"`
 }
 
 var (
@@ -110,9 +111,21 @@ func Assume(b bool) {
 func Assert(b bool, id string) {
 	if !b {
 		fmt.Printf("VF-ASSERT-FAIL %s\n", id)
+		if continueKnown && rp.Assert != "" && rp.Assert != id {
+			// a listed known finding earlier on the history being replayed
+			return
+		}
 		os.Exit(1)
 	}
 }
+
+// ContinueAfterKnown: a harness that resynchronises its model after a listed
+// known finding lets the path go on past it, so that a different violation
+// further down the same history is still found. (Natively: a failing
+// assertion other than the one being replayed does not stop the run.)
+func ContinueAfterKnown(on bool) { continueKnown = on }
+
+var continueKnown bool
 
 func Reach(id string)       {}
 func Tag(id string)         { fmt.Printf("VF-TAG %s\n", id) }
